@@ -376,6 +376,94 @@ pub fn scenario(seed: u64, ka_heavy: bool) -> Made {
     Made { world: w, desc, probes, horizon }
 }
 
+/// A service (or its host) loses a conflict while probing and is renamed; afterwards questions
+/// of every kind about the names in force and about the names it lost.
+pub fn rename_scenario(seed: u64) -> Made {
+    let mut rng = Rng::new(seed);
+    let mut w = World::new(seed);
+    w.set_stepping(Stepping::Lazy);
+    let ifs = if rng.chance(1, 3) { scen::single_dual() } else { scen::single_v4() };
+    let h = w.add_host(ifs.clone());
+    let t0 = w.now();
+    w.set_ip_check_interval(h, 3600);
+    let addrs: Vec<IpAddr> = ifs[0].addrs.iter().map(|(a, _)| *a).collect();
+    let ty = *rng.pick(&["_t._udp.local.", "_p._sub._t._udp.local."]);
+    let inst_label = if rng.chance(1, 3) { "Printer" } else { "printer" };
+    let reg = World::reg_info(ty, inst_label, "box.local.", &addrs, 1000, &[("k", Some(b"v")), ("flag", None)]);
+    w.register(h, reg.clone());
+    let at = 20 + rng.below(600);
+    w.run_until(t0 + at);
+    let which = rng.below(3);
+    let inst = scen::wire_name(&format!("{inst_label}.{}", reg.ty_only));
+    let host = scen::wire_name("box.local.");
+    let mut m = Message::response();
+    if which != 1 {
+        m.answers.push(wire::a(&host, 120, [10, 0, 0, 77]));
+    }
+    if which != 0 {
+        m.answers.push(wire::srv(&inst, 120, 9, &scen::wire_name("other.local.")));
+    }
+    for r in m.answers.iter_mut() {
+        r.class |= wire::FLUSH;
+    }
+    w.inject_msg(h, 2, scen::peer4(77), &m);
+    let mut desc = format!("rename: ifs={} type={ty} instance={inst_label} @{at}:conflicting-{}:", ifs.len(), ["address", "srv", "srv+address"][which as usize]);
+    let mut times: Vec<u64> = (0..10 + rng.usize(12)).map(|_| at + 3300 + rng.below(4000)).collect();
+    times.sort();
+    let ty_name = scen::wire_name(&reg.ty_only);
+    let mut probes = Vec::new();
+    for t in times {
+        w.run_until(t0 + t);
+        // the names in force, read off the latest announcement
+        let txs = scen::tx_msgs(&w.trace, 0);
+        let in_force = txs.iter().filter(|tx| tx.msg.is_response() && tx.multicast).filter_map(|tx| {
+            tx.msg.answers.iter().filter(|r| r.rtype == wire::T_PTR && wire::names_eq_nocase(&r.name, &ty_name)).find_map(|p| {
+                let RData::Ptr(x) = &p.rdata else { return None };
+                tx.msg.answers.iter().find_map(|r| match &r.rdata {
+                    RData::Srv { port, target, .. } if wire::names_eq_nocase(&r.name, x) && *port == 1000 => Some((x.clone(), target.clone())),
+                    _ => None,
+                })
+            })
+        }).last();
+        let (cur_inst, cur_host) = in_force.unwrap_or((inst.clone(), host.clone()));
+        let i = ifs[0].clone();
+        let v4 = if i.has_family(false) { rng.chance(1, 2) } else { true };
+        let port = if rng.chance(1, 5) { 40000 + rng.below(1000) as u16 } else { 5353 };
+        let src: SocketAddr = if v4 { sock4([10, 0, 0, 99], port) } else { sock6("fe80::99".parse().unwrap(), port, i.index) };
+        let mut q = Message::query();
+        q.id = if rng.chance(1, 2) { rng.u64() as u16 | 1 } else { 0 };
+        for _ in 0..1 + rng.usize(2) {
+            let question = match rng.below(12) {
+                0 => wire::question(&ty_name, wire::T_PTR),
+                1 => wire::question(&scen::wire_name(reg.subtype.as_deref().unwrap_or(&reg.ty_only)), wire::T_PTR),
+                2 => wire::question(&case_variant(&mut rng, &cur_inst), wire::T_SRV),
+                3 => wire::question(&case_variant(&mut rng, &cur_inst), wire::T_TXT),
+                4 => wire::question(&case_variant(&mut rng, &cur_inst), wire::T_ANY),
+                5 => wire::question(&case_variant(&mut rng, &cur_host), wire::T_A),
+                6 => wire::question(&case_variant(&mut rng, &cur_host), wire::T_ANY),
+                7 => wire::question(&case_variant(&mut rng, &cur_host), wire::T_AAAA),
+                8 => wire::question(&inst, wire::T_SRV),
+                9 => wire::question(&inst, wire::T_ANY),
+                10 => wire::question(&host, wire::T_A),
+                _ => wire::question(&host, wire::T_ANY),
+            };
+            if !q.questions.contains(&question) {
+                q.questions.push(question);
+            }
+        }
+        let wake = w.hosts[h].ctx.lock().wakeup;
+        let isolated = wake.is_none_or(|x| x > w.now()) && !w.hosts[h].needs_run;
+        let rx_idx = w.trace.entries.len();
+        w.inject_msg(h, i.index, src, &q);
+        w.settle();
+        probes.push(Probe { t: w.now(), rx_idx, if_index: i.index, v4, src, query: q, isolated });
+    }
+    desc.push_str(&format!(" {} queries", probes.len()));
+    let horizon = w.now() + 500;
+    w.run_until(horizon);
+    Made { world: w, desc, probes, horizon }
+}
+
 /// The model state of every service at entry index `idx` (time `t`): latest registration and
 /// whether it has been announced on interface `if_index` since.
 pub fn states_at(trace: &Trace, host: usize, idx: usize, if_index: u32) -> Vec<(SvcState, bool)> {
@@ -415,13 +503,36 @@ pub fn states_at(trace: &Trace, host: usize, idx: usize, if_index: u32) -> Vec<(
                 .iter()
                 .rposition(|e| matches!(&e.ev, Ev::Api { call: ApiCall::Register(r), result: ApiResult::Ok, .. } if r.fullname.eq_ignore_ascii_case(&s.reg.fullname)))
                 .unwrap_or(0);
-            let announced = s.unregistered_at.is_none()
+            let mut announced = s.unregistered_at.is_none()
                 && txs.iter().any(|(k, _, m)| {
                     *k > reg_idx
                         && m.is_response()
                         && scen::answers_ptr(m, &ty, &inst)
                         && m.answers.iter().any(|r| r.rtype == wire::T_SRV && wire::names_eq_nocase(&r.name, &inst))
                 });
+            // a service renamed by conflict resolution answers under the names it last announced on this
+            // interface: read them off that announcement (PTR of the type -> X, SRV at X with the service's port)
+            let mut s = s;
+            if s.unregistered_at.is_none() {
+                let in_force = txs.iter().filter(|(k, _, m)| *k > reg_idx && m.is_response()).filter_map(|(_, _, m)| {
+                    m.answers.iter().filter(|r| r.rtype == wire::T_PTR && wire::names_eq_nocase(&r.name, &ty)).find_map(|p| {
+                        let RData::Ptr(x) = &p.rdata else { return None };
+                        m.answers.iter().find_map(|r| match &r.rdata {
+                            RData::Srv { port, target, .. } if r.rtype == wire::T_SRV && wire::names_eq_nocase(&r.name, x) && *port == s.reg.port => Some((x.clone(), target.clone())),
+                            _ => None,
+                        })
+                    })
+                }).last();
+                if let Some((x, target)) = in_force {
+                    if !wire::names_eq_nocase(&x, &inst) {
+                        s.reg.fullname = wire::escaped(&x);
+                    }
+                    if !wire::names_eq_nocase(&target, &scen::wire_name(&s.reg.host)) {
+                        s.reg.host = wire::escaped(&target);
+                    }
+                    announced = true;
+                }
+            }
             (s, announced)
         })
         .collect()
@@ -633,7 +744,8 @@ fn suppressed_key(k: &Key, known: &[Record]) -> bool {
 }
 
 pub fn run_one(seed: u64, which: &str, l: &mut Local) {
-    let made = scenario(seed, which == "C10");
+    // (one scenario in six of C06's: a service renamed by conflict resolution)
+    let made = if which == "C06" && seed % 6 == 0 { rename_scenario(seed) } else { scenario(seed, which == "C10") };
     l.evaluations += 1;
     let w = &made.world;
     l.count("daemon_iterations", w.total_iterations);
@@ -653,11 +765,12 @@ pub fn run(report: &Report, tier: &Tier) {
         "responder scenarios: 1..3 interfaces on differing subnets (v4/v6/both), 1..4 services (types, subtype, shared or separate hosts, upper-case \
          letters), registered at 0..1.5 s, re-registered with new port/TXT, unregistered; 10..39 queries per scenario at any time (before, during, \
          after probing) with 1..8 questions among type/subtype/meta PTR, SRV, TXT, ANY on the instance, A/AAAA/ANY on the host (case variants), \
-         foreign names, other types; from port 5353 or an ephemeral port, over IPv4 or IPv6, with and without known answers; distinct by \
+         foreign names, other types; from port 5353 or an ephemeral port, over IPv4 or IPv6, with and without known answers; one scenario in six: a service whose \
+         instance and/or host name lost a conflict while probing, then questions about the names in force and the names it lost; distinct by \
          (port class, family, question types, #known answers, #expected answers)",
     );
     report.assume("a query is judged only if the daemon had nothing else due at that instant, and not within the 400 ms around the end of probing");
-    report.assume("renamed services (conflicts) are C08's workload");
+    report.assume("after a rename by conflict resolution the names in force are the ones last announced on the interface (read off the wire)");
     for r in ["Q1", "Q2", "Q3", "Q4", "Q5", "Q6"] {
         report.floor(r, 100);
     }
